@@ -93,11 +93,83 @@ def e7_validation(seed, n=4000):
     return dict(ok=not bad, violation=False, bound=f"{tried} canonical renderings of random well-formed component records (seed {seed})", mismatches=bad[:5])
 
 
+def wire_check():
+    """what GeminiClient puts on the wire for a URL parses (server side: GeminiRequest.from_line) to the components the caller asked for"""
+    import asyncio
+    from nauyaca.client.session import GeminiClient
+    from nauyaca.protocol.request import GeminiRequest
+    from nauyaca.utils.url import parse_url
+    urls = ["gemini://example.com", "gemini://example.com/", "gemini://example.com?search", "gemini://example.com/?search", "gemini://example.com:1965?q=a/b",
+            "gemini://[2001:db8::1]/?a=1&b=2", "gemini://EXAMPLE.com:1966/Dir/file.gmi?x=1", "gemini://example.com/a%2Fb?c%3Dd", "gemini://example.com/a;b=1",
+            "gemini://example.com/a\r\nb", "gemini://example.com/x y", "gemini://example.com/p?", "gemini://example.com:/p", "GEMINI://example.com/UP"]
+    tried = 0
+    for url in urls:
+        try:
+            want = parse_url(url)
+        except ValueError:
+            continue
+        tried += 1
+        seen = {}
+
+        async def go():
+            loop = asyncio.get_running_loop()
+
+            async def create_connection(factory, host=None, port=None, **kw):
+                seen["peer"] = (host, port)
+                proto = factory()
+
+                class T:
+                    def write(self, d):
+                        seen["wire"] = seen.get("wire", b"") + bytes(d)
+                        loop.call_soon(proto.data_received, b"20 text/gemini\r\nok\n")
+                        loop.call_soon(proto.connection_lost, None)
+
+                    def close(self):
+                        pass
+
+                    def is_closing(self):
+                        return False
+
+                    def get_extra_info(self, n, default=None):
+                        return default
+                proto.connection_made(T())
+                return T(), proto
+            loop.create_connection = create_connection
+            client = GeminiClient(timeout=0.5, trust_on_first_use=False)
+            return await client._get_single(url)
+        try:
+            asyncio.run(go())
+        except Exception as e:  # noqa: BLE001
+            return dict(confirmed=True, input=dict(url=url), observed="fetch of an accepted URL raised " + repr(e), clause="an accepted URL can be requested"), tried
+        wire = seen.get("wire", b"")
+        line = wire.split(b"\r\n", 1)[0]
+        bad = None
+        if wire.count(b"\r\n") != 1 or not wire.endswith(b"\r\n"):
+            bad = f"the request is not exactly one line: {wire!r}"
+        else:
+            try:
+                got = GeminiRequest.from_line(line.decode("utf-8"))
+                if (got.hostname, got.port, got.path, got.query) != (want.hostname, want.port, want.path, want.query) or seen.get("peer") != (want.hostname, want.port):
+                    bad = f"server-side parse of the request line gives {(got.hostname, got.port, got.path, got.query)!r}, the caller asked for {(want.hostname, want.port, want.path, want.query)!r}; connected to {seen.get('peer')!r}"
+            except ValueError as e:
+                bad = f"the server refuses the request line {line!r}: {e}"
+        if bad:
+            return dict(confirmed=True, input=dict(url=url), observed=dict(request_line=repr(line), violated=[bad]),
+                        clause="the request line sent to a server parses to the same host, port, path and query the caller asked for"), tried
+    return None, tried
+
+
 def main(p=None):
     p = p or load()
     model = p.get("model") or {}
     if p.get("obligation") == "__e7__":
         done(**e7_validation(int(p.get("seed", 0))))
+    if "GeminiClient" in p.get("obligation", "") or "client.protocol" in p.get("obligation", "") or p.get("obligation") == "__bounded__":
+        r, n = wire_check()
+        if r:
+            done(**r)
+        if p.get("obligation") != "__bounded__":
+            done(confirmed=False, reason="every accepted URL of the bank reaches the wire as its normalised form", tried=n)
     records = []
     # the counter-model's components first (when they are usable text)
     h, port, path, q = model.get("wit_hostname"), model.get("wit_port"), model.get("wit_path"), model.get("wit_query")
